@@ -66,6 +66,23 @@ func hasBadOp(e ast.Expr) bool {
 	return bad
 }
 
+func hasBadOpExceptSub(e ast.Expr) bool {
+	bad := false
+	ast.Inspect(e, func(n ast.Node) bool {
+		if x, ok := n.(*ast.BinaryExpr); ok {
+			switch x.Op {
+			case token.QUO, token.REM, token.SHL, token.SHR, token.AND, token.OR, token.XOR:
+				bad = true
+			}
+		}
+		if x, ok := n.(*ast.UnaryExpr); ok && x.Op == token.SUB {
+			bad = true
+		}
+		return true
+	})
+	return bad
+}
+
 // evalNat evaluates a constant non-negative integer expression (literals, named constants, +, *).
 func evalNat(e ast.Expr, consts map[string]string) (int64, error) {
 	switch x := e.(type) {
@@ -186,6 +203,8 @@ type leanOut struct {
 	sb    strings.Builder
 	errs  []string
 	names []string
+
+	allowSub bool
 }
 
 // macro emits a tactic macro unfolding every generated definition of the module (`simp only [...] at *`).
@@ -207,12 +226,20 @@ func newEnv(consts map[string]string, vars ...string) *Env {
 }
 
 // fn emits `def name (params : Nat) : ty := <translated e>`
+// fnSub is fn for expressions that may subtract: Lean's truncated Nat subtraction is exact only where the caller
+// documents that the minuend is not smaller (recorded in the doc string).
+func (o *leanOut) fnSub(name, doc string, params []string, ty string, e ast.Expr, env *Env) {
+	o.allowSub = true
+	o.fn(name, doc, params, ty, e, env)
+	o.allowSub = false
+}
+
 func (o *leanOut) fn(name, doc string, params []string, ty string, e ast.Expr, env *Env) {
 	if e == nil {
 		o.fail("%s: expression not found", name)
 		return
 	}
-	if hasBadOp(e) {
+	if hasBadOp(e) && !(o.allowSub && !hasBadOpExceptSub(e)) {
 		o.fail("%s: expression uses an operator outside {+,*,comparisons,&&,||,!}", name)
 		return
 	}
@@ -503,6 +530,57 @@ func genFrameLen() (string, error) {
 		}
 	}
 
+	// ---- HTTP/2 framer boundary (pkg/module/http2/mhttp2.go MFramer.readFrameHeader / ReadFrame)
+	hc := map[string]string{}
+	if err := intConsts("pkg/module/http2", "", hc); err != nil {
+		return "", err
+	}
+	hm, err := parse("pkg/module/http2/mhttp2.go")
+	if err != nil {
+		return "", err
+	}
+	if fd := findFunc(hm, "MFramer", "readFrameHeader"); fd == nil {
+		o.fail("http2 readFrameHeader not found")
+	} else {
+		ff := factsOf(fd, hc)
+		if len(ff.conds) < 1 {
+			o.fail("http2 readFrameHeader: length test not found")
+		} else {
+			o.fn("h2_hdrShort", "mhttp2.go readFrameHeader: fewer than off+frameHeaderLen bytes buffered (ErrAGAIN)", []string{"dataLen", "off"}, "Bool", ff.conds[0],
+				newEnv(hc, "data.Len()", "dataLen", "off", "off"))
+		}
+	}
+	if fd := findFunc(hm, "MFramer", "ReadFrame"); fd == nil {
+		o.fail("http2 ReadFrame not found")
+	} else {
+		ff := factsOf(fd, hc)
+		env := newEnv(hc, "data.Len()", "dataLen", "off", "off", "fh.Length", "length", "fr.maxReadSize", "maxReadSize", "size", "size", "msize", "msize",
+			"fh.Type", "ty", "FrameContinuation", hc["FrameContinuation"], "FrameHeaders", hc["FrameHeaders"])
+		var tooLarge, incomplete, notCont ast.Expr
+		for _, c := range ff.conds {
+			k := ""
+			if b, ok := c.(*ast.BinaryExpr); ok {
+				k = exprKey(b.X) + " " + b.Op.String() + " " + exprKey(b.Y)
+			}
+			switch {
+			case k == "fh.Length > fr.maxReadSize":
+				tooLarge = c
+			case strings.HasPrefix(k, "?*ast.CallExpr > "):
+				incomplete = c
+			case k == "fh.Type != FrameContinuation":
+				notCont = c
+			}
+		}
+		o.fn("h2_tooLarge", "mhttp2.go ReadFrame: ErrFrameTooLarge", []string{"length", "maxReadSize"}, "Bool", tooLarge, env)
+		o.fnSub("h2_incomplete", "mhttp2.go ReadFrame: payload not buffered yet (ErrAGAIN); the subtraction is exact: readFrameHeader has checked dataLen ≥ off+frameHeaderLen", []string{"length", "dataLen", "off"}, "Bool", incomplete, env)
+		o.fn("h2_size", "mhttp2.go ReadFrame: size of one frame", []string{"length"}, "Nat", ff.assign["size"], env)
+		o.fn("h2_drains", "mhttp2.go ReadFrame: this frame type drains the buffer itself (CONTINUATION is drained by its HEADERS)", []string{"ty"}, "Bool", notCont, env)
+		if len(ff.drains) != 1 {
+			o.fail("http2 ReadFrame: expected exactly one Drain call")
+		} else {
+			o.fn("h2_drain", "mhttp2.go ReadFrame: argument of data.Drain", []string{"size", "msize"}, "Nat", ff.drains[0], env)
+		}
+	}
 	if len(o.errs) > 0 {
 		return "", fmt.Errorf("%s", strings.Join(o.errs, "; "))
 	}
@@ -730,7 +808,7 @@ func genFrameConsts() (string, error) {
 	}
 	fmt.Fprintf(&o.sb, "/-- pkg/module/http2/http2.go ClientPreface -/\ndef http2_preface : List Nat := %s\n", natList(pb))
 	o.names = append(o.names, "http2_preface")
-	for _, n := range []string{"frameHeaderLen"} {
+	for _, n := range []string{"frameHeaderLen", "defaultMaxReadFrameSize", "maxFrameSize", "FrameHeaders", "FrameContinuation", "FlagHeadersEndHeaders", "FlagContinuationEndHeaders"} {
 		if v, err := intConst("pkg/module/http2", n); err == nil {
 			o.nat("http2_"+n, "pkg/module/http2 const "+n, v)
 		} else {
